@@ -57,7 +57,8 @@ abbrev GoodF (i j : Nat) (c : Tb) (v : Int) : Prop := Good sc cl x y (finalT sc 
 /-- S cell of `(i, j)` as the main loop left it: good, or (row `m` only) still the default `TB_XCLIP_SUFFIX`, the value
 being what the x-suffix tracker of this column took from a row `k < m` -/
 def SorX (j i : Nat) : Prop :=
-  GoodF sc cl x y i j (cell sc cl x y j i).t.ts (cell sc cl x y j i).s ∨
+  (GoodF sc cl x y i j (cell sc cl x y j i).t.ts (cell sc cl x y j i).s ∧
+      (1 ≤ i → (cell sc cl x y j i).t.ts ≠ .xsuf)) ∨
     (i = x.length ∧ (cell sc cl x y j i).t.ts = .xsuf ∧ ∃ k, 1 ≤ k ∧ k < x.length ∧
       (cell sc cl x y j i).t.lx = x.length - k ∧ (cell sc cl x y j i).s ≤ (cell sc cl x y j k).s + cl.xs)
 
@@ -93,7 +94,7 @@ theorem origin_of_pos (hn : 0 < y.length) : OriginOK sc cl x y := by
   exact good_start (Int.le_refl 0)
 
 theorem mr_row00 : MR sc cl x y 0 0 := by
-  refine ⟨Or.inl ?_, fun h => by omega, fun _ => ?_, Or.inr ⟨0, Nat.le_refl _, ?_, ?_⟩⟩
+  refine ⟨Or.inl ⟨?_, fun h => by omega⟩, fun h => by omega, fun _ => ?_, Or.inr ⟨0, Nat.le_refl _, ?_, ?_⟩⟩
   · rw [cell_zero_zero]; exact good_start (Int.le_refl 0)
   · left; rw [cell_zero_zero]; simp only [row00]; rw [if_neg (by omega)]
   · rw [cell_zero_zero]; simp [row00]
@@ -124,7 +125,7 @@ theorem mr_step0 (H : Hyp sc cl x y W)
           rw [← hcell] at this
           omega
       · rw [if_neg hm] at hsv; omega
-    · exact Or.inl hg
+    · exact Or.inl ⟨hg.1, fun _ => hg.2⟩
   · -- Trk
     have := step0_trk (sc := sc) (cl := cl) (x := x) (y := y) (i + 1) (cell sc cl x y 0 i) (by omega)
     rw [← hcell] at this
@@ -192,7 +193,7 @@ theorem mr_rowJ0 (H : Hyp sc cl x y W)
         (v := (cell sc cl x y j 0).sn) (v' := (cell sc cl x y jj 0).s) (by rw [hly']; omega) (by rw [hly']; omega)
         (by rw [hly', show y.length - (y.length - jj) = jj by omega]; exact hG) hsn
       rw [hjn]; exact this
-  refine ⟨⟨Or.inl hS, fun _ => hD, fun hm => ?_, ?_⟩, hS⟩
+  refine ⟨⟨Or.inl ⟨hS, fun h => by omega⟩, fun _ => hD, fun hm => ?_, ?_⟩, hS⟩
   · left; rw [hcell]; simp only [rowJ0]; rw [if_neg (by omega)]
   · have := rowJ0_sn (sc := sc) (cl := cl) (x := x) (y := y) (j + 1) (cell sc cl x y j 0)
     rw [← hcell] at this
@@ -249,7 +250,7 @@ theorem mr_stepJ (H : Hyp sc cl x y W)
           rw [← hcell] at this
           omega
       · rw [if_neg hm] at hsv; omega
-    · exact Or.inl hg
+    · exact Or.inl ⟨hg.1, fun _ => hg.2⟩
   · -- Trk
     have := stepJ_trk (sc := sc) (cl := cl) (x := x) (y := y) (j + 1) (colAt sc cl x y j) (i + 1)
       (cell sc cl x y (j + 1) i) (by omega)
